@@ -32,6 +32,7 @@ def run(chk):
     cats = (single + multi_pool)[:ncat]
     # ---------------- filters
     cases = []
+    unfiltered = {}
     for ci, cat in enumerate(cats):
         rows = [(s, k) for s, sl in enumerate(cat) for k in range(len(sl))]
         masks = [[[True] * len(sl) for sl in cat], [[False] * len(sl) for sl in cat]]
@@ -92,6 +93,9 @@ def run(chk):
             subs.update({x: True for x in sub})
             cols = [x for x in ('pos', 'vel', 'pid') if x in sub or (x in ('pos', 'vel') and 'rv' in sub)]
             flds = ['id', 'N'] if (r // 5) % 3 else ['id', 'N', 'x_com', 'r50_com']       # rotations use unrelated periods: no two options move in lock-step
+            if (r // 2) % 5 == 1:
+                # multi-column / cleaning-file columns, and the whole table now and then
+                flds = 'all' if r % 4 == 1 else (['id', 'N', 'L2_N', 'sigmar_com'] + (['N_mainprog', 'vcirc_max_L2com_mainprog', 'v_L2com_mainprog', 'N_merge'] if c['cleaned'] else []))
             kw = dict(cleaned=c['cleaned'], subsamples=subs, fields=flds, filter_func=ff)
             path = zd if (r // 7) % 2 else files
             desc = (f'catalog #{ci} {[[(h["nA"], h["gA"], h["mA"], h["nB"], h["mB"], h["away"]) for h in sl] for sl in cat]} cleaned={c["cleaned"]} subsamples={subs} '
@@ -107,7 +111,30 @@ def run(chk):
             nload += 1
             nontriv += 1 if c['table'] else 0
             cc.compare(chk, 'C03', c, cobj, cols, tag, desc, payload)
-            # the filtered halo columns must be the rows of the unfiltered load
+            # filtering commutes with loading: every halo column of the filtered load is that column of the unfiltered load on the kept rows
+            # (the subsample index columns are re-based and are judged above)
+            fkey = (ci, c['cleaned'], 'all' if flds == 'all' else tuple(flds))
+            if fkey not in unfiltered:
+                try:
+                    unfiltered[fkey] = cc.load(zd, cleaned=c['cleaned'], subsamples=False, fields=flds).halos
+                except Exception as e:  # noqa
+                    unfiltered[fkey] = None
+                    chk.violation(f'unfiltered-raises-{type(e).__name__}', f'catalog #{ci} cleaned={c["cleaned"]} fields={flds} without filter: {type(e).__name__}: {e}', payload)
+            U = unfiltered[fkey]
+            if U is not None:
+                allrows = [(s, kk) for s, sl in enumerate(cat) for kk in range(len(sl))]
+                keepidx = [allrows.index(rw) for rw in cc.kept_rows(c)]
+                for col in U.colnames:
+                    if col.startswith('npstart') or col.startswith('npout'):
+                        continue
+                    if col not in cobj.halos.colnames:
+                        chk.violation(f'{tag}-column-missing', f'{desc} fields={flds}: column {col} is in the unfiltered table but not in the filtered one', payload)
+                        continue
+                    a, b = np.asarray(cobj.halos[col]), np.asarray(U[col])[keepidx]
+                    if a.dtype != b.dtype or a.shape != b.shape or not np.array_equal(a, b, equal_nan=True):
+                        chk.violation(f'{tag}-halo-column-{"shape" if a.shape != b.shape else "values"}', f'{desc} fields={flds}: column {col} of the filtered load (dtype {a.dtype}, shape {a.shape}) '
+                                      f'is not that column of the unfiltered load on the kept rows (dtype {b.dtype}, shape {b.shape})', payload)
+                        break
             if 'x_com' in cobj.halos.colnames and nk:
                 want = sc.raw_halo_columns([sc.uid(s, kk) for (s, kk) in cc.kept_rows(c)])['x_com'] * sc.BOX
                 if not np.allclose(np.asarray(cobj.halos['x_com']), want, rtol=1e-6):
